@@ -60,6 +60,7 @@ class Run:
 
     def __init__(self, name, args, prefix=()):
         self.name = name
+        self.args = list(args)
         os.makedirs(os.path.join(CACHE, "runs"), exist_ok=True)
         self.tpath = os.path.join(CACHE, "runs", f"{name}.txt")
         self.opath = os.path.join(CACHE, "runs", f"{name}.out")
@@ -412,6 +413,57 @@ def oracle_clean_error(c):
     return None
 
 
+def aftermath_oracle(v, runs, concrete):
+    """A failed system call must leave nothing behind in the process: after the fault sweep of a case, the same
+    operation on the same tree without any fault must behave exactly as it did before the faults (same result, same
+    number of system calls).  On a difference the case is re-run in a fresh process with an unfaulted run after every
+    single schedule, which yields the first schedule that poisons the process."""
+    stats = {"aftermath_runs": 0, "differences": 0, "searches": 0}
+    for r in runs:
+        args = r.args
+        for c in r.cases:
+            am = c.extra.get("aftermath")
+            if not am:
+                continue
+            stats["aftermath_runs"] += 1
+            base = r.by_id.get(c.id.replace("-after", "-base"))
+            if base is None:
+                continue
+            if canon_res(c.res) == canon_res(base.res) and len(c.events) == len(base.events):
+                continue
+            # openat2 answers EAGAIN whenever anything on the machine is renamed meanwhile: inconclusive
+            if any(ev[1][:2] == ["err", "11"] for ev in list(c.events) + list(base.events)) or eagain_noise(c) or eagain_noise(base):
+                stats["inconclusive_eagain"] = stats.get("inconclusive_eagain", 0) + 1
+                continue
+            stats["differences"] += 1
+            facts = case_facts(c)
+            facts["kind"] = "oracle"
+            msg = (f"after the injected faults of this case the same operation, run again without any fault, gives "
+                   f"'{' '.join(c.res[:4])}' with {len(c.events)} system calls; before the faults it gave "
+                   f"'{' '.join(base.res[:4])}' with {len(base.events)}")
+            replay = case_replay(c, "an injected system-call failure left state behind in the process: " + msg,
+                                 {"baseline": base.raw})
+            # search for the first poisoning schedule in a fresh process
+            try:
+                idx = int("".join(ch for ch in c.id.split("-")[0] if ch.isdigit()))
+                sp = os.path.join(CACHE, "runs", f"{r.name}-aftermath-search.txt")
+                stats["searches"] += 1
+                run_harness(args + ["--only-case", str(idx), "--aftermath-each"], sp, timeout=1200)
+                for sc in parse_cases(sp):
+                    a2 = sc.extra.get("aftermath")
+                    if a2 and sc.id.endswith("-after") and "-f" in sc.id:
+                        replay["first_poisoning_schedule"] = " ".join(a2[0])
+                        replay["aftermath_after_that_schedule"] = sc.raw
+                        msg += "; first schedule after which this happens in a fresh process: " + " ".join(a2[0][2:])
+                        break
+            except Exception as e:  # the search is best effort; the sweep-level witness stands
+                replay["search_error"] = repr(e)[:200]
+            facts["oracle"] = msg
+            v.fail(facts, replay)
+            concrete.add((r.name, c.id))
+    return stats
+
+
 def check_C10(v, tier, seed):
     n = sizes(tier, 40, 400)
     per = sizes(tier, 150, 500)
@@ -419,6 +471,7 @@ def check_C10(v, tier, seed):
             Run("C10-fault-enosys", ["fault", "--seed", str(seed + 15485863), "--n", str(max(n // 3, 10)),
                                      "--per-case", str(per), "--no-openat2"])]
     concrete = run_oracle_cases(v, runs, oracle_clean_error, "an injected system-call failure did not yield a clean error")
+    aftermath = aftermath_oracle(v, runs, concrete)
     broken = generic_tie(v, runs, concrete)
 
     def key(c):
@@ -433,6 +486,7 @@ def check_C10(v, tier, seed):
                    "12-entry catalogue) | descriptor exhaustion from k | every in-root openat2 answers EAGAIN; the interposer fails the "
                    "call below the wrapper without entering the kernel; distinct = distinct tuples; non-trivial = at least 2 calls")
     cov["tie_mismatches"] = broken
+    cov["aftermath"] = aftermath
     kinds, errnos, failed_calls = {}, {}, {}
     for r in runs:
         for c in r.cases:
